@@ -335,7 +335,7 @@ impl Check for C14 {
         "exploration"
     }
     fn rule_text(&self) -> String {
-        "random configurations (maximum frame 64..65536, cookie expiry 0..10^9 s, secret none/short/long, timeout 1..600 s) started either through passage::start(config) with built-in adapters (2/3) or as a Listener with sim services whose discovery never answers (1/3), with 1-3 clients of the kinds: status exchange whose handshake frame declares exactly max or max+1 bytes; transfer presenting a cookie aged expiry-1 / expiry / expiry+1 / random under the configured or another secret; silent; one byte every k seconds; stops after n frames; echoes every keep-alive forever. Non-trivial = a client actually probed a limit (frame, cookie or deadline reached); distinct = distinct (event-order trace, roles, configuration class) hash.".into()
+        "random configurations (maximum frame 64..65536, cookie expiry 0..10^9 s, secret none/short/long, timeout 1..600 s) started either through passage::start(config) with built-in adapters (2/3) or as a Listener with sim services whose discovery never answers (1/3), with 1-3 clients of the kinds: status exchange whose handshake frame declares exactly max or max+1 bytes; transfer presenting a cookie aged expiry-1 / expiry / expiry+1 / random under the configured or another secret; silent; one byte every k seconds; stops after n frames; echoes every keep-alive forever; stops reading; logs in and sends an over-long frame once the read buffer has grown; a handshake that declares its real length plus 2^21 / 2^28 / 2^30 (prefix first); handshake frames of 254 / 382 / 510 bytes. A third of the application runs take their secret from the environment variable or the secret file through Config::read(). Non-trivial = a client actually probed a limit (frame, cookie or deadline reached); distinct = distinct (event-order trace, roles, configuration class) hash.".into()
     }
     fn assumptions(&self) -> Vec<String> {
         vec![
@@ -344,7 +344,7 @@ impl Check for C14 {
         ]
     }
     fn components(&self) -> Value {
-        json!({"real": ["passage::start (src/lib.rs)", "passage::config::Config value -> adapters", "Listener::listen / handle", "Connection", "built-in Fixed* adapters (start mode)"], "stub": ["network (hook H1 SimNet)", "clients", "sim services (listener mode)", "wall clock"]})
+        json!({"real": ["passage::start (src/lib.rs)", "passage::config::Config value -> adapters", "Config::read() for the secret (environment variable / secret file, once per source at process start)", "Listener::listen / handle", "Connection", "built-in Fixed* adapters (start mode)"], "stub": ["network (hook H1 SimNet)", "clients", "sim services (listener mode)", "wall clock"]})
     }
     fn count(&self, tier: Tier) -> u64 {
         match tier {
